@@ -117,15 +117,39 @@ func statusIs(c *Ctx, v ssa.Value, names ...string) bool {
 		}
 		return false
 	}
-	if ph, isPhi := v.(*ssa.Phi); isPhi {
-		for _, e := range ph.Edges {
-			if !ok(e) {
+	var all func(x ssa.Value, d int) bool
+	all = func(x ssa.Value, d int) bool {
+		if d > 4 {
+			return false
+		}
+		switch y := x.(type) {
+		case *ssa.Phi:
+			for _, e := range y.Edges {
+				if !all(e, d+1) {
+					return false
+				}
+			}
+			return true
+		case *ssa.Call:
+			// a helper of the module that picks the status: every value it can return must be allowed
+			h := y.Call.StaticCallee()
+			if h == nil || len(h.Blocks) == 0 || h.Signature.Results().Len() != 1 {
 				return false
 			}
+			rets := kit.Returns(h)
+			if len(rets) == 0 {
+				return false
+			}
+			for _, ret := range rets {
+				if !all(kit.RetVal(ret, 0), d+1) {
+					return false
+				}
+			}
+			return true
 		}
-		return true
+		return ok(x)
 	}
-	return ok(v)
+	return all(v, 0)
 }
 
 // ---- C10 -----------------------------------------------------------------------
